@@ -14,10 +14,19 @@ CLASSES = ['QuinticSplineND', 'SepticSplineND']
 
 def tasks(tier):
     T = []
-    for cls in CLASSES:
-        for D in ([1] if tier == 'quick' else [1, 2]):
-            for d in range(D):
-                T.append(Task(cls, 'propagateGradInternal', 6, {'DIM': D}, label='%s,DIM=%d,coord=%d' % (cls.replace('SplineND', ''), D, d), gen_options={'focus': d}))
+    # (class, DIM, coordinates in focus): the duration gradient always sums over every coordinate; the septic code has separate
+    # paths for DIM <= 3 and DIM > 3
+    if tier == 'quick':
+        cfgs = [('QuinticSplineND', 2, [1]), ('SepticSplineND', 1, [0]), ('SepticSplineND', 4, [3])]
+    else:
+        cfgs = [(c, D, list(range(D))) for c in CLASSES for D in (1, 2, 3, 4)]
+    sel = os.environ.get('C05_ONLY')
+    for cls, D, ds in cfgs:
+        for d in ds:
+            lab = '%s,DIM=%d,coord=%d' % (cls.replace('SplineND', ''), D, d)
+            if sel and not re.search(sel, lab):
+                continue
+            T.append(Task(cls, 'propagateGradInternal', 6, {'DIM': D}, label=lab, gen_options={'focus': d}))
     return T
 
 
